@@ -16,14 +16,16 @@ def chk(pid, level, text, note, technique, ref):
 CHECKS = [
     chk("C01", "model_checking",
         "Per-detector layered G2 spaces (fields the detector governs, both operand orders, self-checks through gtxn/gtxns forms, "
-        "shuffled atoms) plus all G1 raw layouts: E1 explores every execution over all groups (size 1-16, own index anywhere, "
+        "shuffled atoms, conditions consumed by switch/match, loops that really iterate through a scratch counter incl. a subroutine entry "
+        "as loop header, several gtxn/gtxns reads per block) plus all G1 raw layouts: E1 explores every execution over all groups (size 1-16, own index anywhere, "
         "region representatives of every field read); whenever some accepting run carries a detector's dangerous value, that "
         "detector (run through init_tealer_from_single_contract) must report at least one path. All nine detectors are evaluated on every program.",
         "Trusted: reference AVM. Unbound inputs count as carrying every value; application creation is not counted as update/delete.",
         "explicit-state exploration of the concrete AVM over the region quotient of all inputs; existence of a dangerous accepting state implies a reported trace",
         "DESIGN.md 3/C01"),
     chk("C02", "model_checking",
-        "Skeleton-heavy G2 programs (free conditions, 0-3 subroutines, shared/nested/recursive calls, loops), all G1 raw layouts "
+        "Skeleton-heavy G2 programs (free conditions, 0-3 subroutines, shared/nested/recursive calls, loops), all G1 raw layouts (incl. switch/match "
+        "naming one label twice) "
         "and detector spaces: every path reported by each of the nine detectors is an implementation trace that is replayed on "
         "the reference call-stack automaton (entry start, edges, callsub -> callee entry, retsub -> return point of its own call "
         "site, terminating last block, no block twice per activation), checked to contain no block whose context excludes the "
@@ -63,14 +65,15 @@ CHECKS = [
         "execution over all 136 (size,index) pairs and checks that every block passed lists the pair (soundness); O2 explores "
         "an abstract transition system per value (16+16 values x program) and demands the listed sets equal the exact sets "
         "on direct-check programs (bracketed by the context-insensitive sets on blocks with several calling contexts), plus "
-        "the index<size coupling on every block.",
+        "the index<size coupling on every block; comparisons of ANOTHER member's GroupIndex (gtxn i GroupIndex, gtxns GroupIndex) must not narrow "
+        "the governed transaction's index set. Soundness-only layers: stack-shuffled atoms, unresolvable constants, conditions consumed by switch/match, and loops that really iterate (scratch counter as loop condition; also with a subroutine's entry label as loop header), so accepting runs take back edges.",
         "Trusted: reference AVM, O2 evaluator (mc/abstract.py). Bounded program size; exactness only on the direct-check fragment.",
         "explicit-state exploration of the concrete AVM (all size/index pairs) and of an abstract per-value reachability system; invariant = tealer's per-block sets",
         "DESIGN.md 3/C06"),
     chk("C07", "model_checking",
         "Layered G2 spaces over TypeEnum/OnCompletion/ApplicationID atoms: E1 explores every accepting execution over all "
         "(TypeEnum, OnCompletion, ApplicationID) valuations a real transaction can have and checks that Pay, Axfer, "
-        "ApplUpdateApplication, ApplDeleteApplication are listed by every block the run passes whenever the governed transaction is of that kind.",
+        "ApplUpdateApplication, ApplDeleteApplication are listed by every block the run passes whenever the governed transaction is of that kind. Soundness-only layers: stack-shuffled atoms, unresolvable constants, conditions consumed by switch/match, and loops that really iterate (scratch counter as loop condition; also with a subroutine's entry label as loop header), so accepting runs take back edges.",
         "Trusted: reference AVM. Only the four kinds the property names are demanded; creation transactions are not counted as update/delete.",
         "explicit-state exploration of the concrete AVM over all kind valuations; invariant = tealer's per-block kind sets",
         "DESIGN.md 3/C07"),
@@ -78,7 +81,7 @@ CHECKS = [
         "Layered G2 spaces over address atoms of the four fields (==, != x both operand orders x ZeroAddress, two literals, "
         "CreatorAddress; shuffled variants for soundness): E1 checks that every accepting run's non-zero address is admitted "
         "by every block it passes; O2 checks that a block is not 'any address' when no accepting abstract path through it admits "
-        "a fresh address; the ANY/NO set algebra is checked exhaustively (6^2+6^3 cases) against plain set semantics.",
+        "a fresh address; the ANY/NO set algebra is checked exhaustively (6^2+6^3 cases) against plain set semantics. Soundness-only layers: stack-shuffled atoms, unresolvable constants, conditions consumed by switch/match, and loops that really iterate (scratch counter as loop condition; also with a subroutine's entry label as loop header), so accepting runs take back edges.",
         "Trusted: reference AVM, O2 evaluator. Address domain: zero, program literals, creator, one fresh address.",
         "explicit-state exploration (concrete AVM over address representatives; abstract per-value reachability) + exhaustive lattice-operation table",
         "DESIGN.md 3/C08"),
@@ -86,7 +89,7 @@ CHECKS = [
         "Layered G2 spaces over Fee atoms (6 operators x both orders x constants incl. 272000/272001): E1 checks fee <= reported "
         "bound on every block of every accepting run; O2 checks that a bound <= 272000 is credited only when no accepting abstract "
         "path admits a larger fee, that programs with a single Fee atom get exactly the implied bound, and - on every program, "
-        "also with comparands the tool cannot evaluate - that no block on an accepting path that never reads Fee is credited with a bound.",
+        "also with comparands the tool cannot evaluate - that no block on an accepting path that never reads Fee is credited with a bound. Soundness-only layers: stack-shuffled atoms, unresolvable constants, conditions consumed by switch/match, and loops that really iterate (scratch counter as loop condition; also with a subroutine's entry label as loop header), so accepting runs take back edges.",
         "Trusted: reference AVM, O2 evaluator. Fee representatives c-1,c,c+1,0,272000,272001,2^64-1.",
         "explicit-state exploration (concrete AVM over fee region representatives; abstract per-value reachability)",
         "DESIGN.md 3/C09"),
@@ -96,7 +99,8 @@ CHECKS = [
         "(size 1-16, own index everywhere, member values by region representatives, lazily bound) and checks that "
         "absolute_context(i), gtxn_context(own index) and relative_context(k) of every block passed admit the respective member; "
         "members never read must be admitted completely; gtxn_context(i) must be empty for indices O2 proves impossible; an "
-        "attribution table (one asserted atom per read form) checks that exactly the right context is constrained.",
+        "attribution table (one asserted atom per read form, incl. `k - GroupIndex` positions, which are no member's offset, and a comparand "
+        "the tool cannot evaluate) checks that exactly the right context is constrained; loops that really iterate are part of the soundness space.",
         "Trusted: reference AVM, O2 index dimension. Reads of up to three members.",
         "explicit-state exploration of the concrete AVM over whole transaction groups; invariant = tealer's per-member sub-contexts",
         "DESIGN.md 3/C10"),
@@ -106,8 +110,11 @@ CHECKS = [
         "table, control opcodes as last instruction: a position machine driven by the independent table decides which instruction "
         "produced every operand (or 'before the block'), and construct_stack_ast must agree slot by slot, including the declared "
         "pop/push counts; an operand the tool reads as an integer literal must carry the value really pushed at that producer and position. All {int, txn, &&, ||, !} code sequences up to 7 instructions check And/Or flattening (leaves in order, "
-        "has_unknown) against an independent symbolic evaluation.",
-        "Trusted: pops/pushes of mc/spec.py (single source, from the AVM specification).",
+        "has_unknown) against an independent symbolic evaluation. The consequence clause is decided semantically: programs whose only comparison has an "
+        "operand that is NOT a governed field (another member's field through gtxn/gtxns, a look-alike field, the field +/- a constant, a position "
+        "computed as k - GroupIndex) in both operand orders and under five consumers are explored by E1 over all groups, and every block passed "
+        "(incl. the sub-contexts kept for other members) must still admit the run.",
+        "Trusted: pops/pushes of mc/spec.py (single source, from the AVM specification); reference AVM for the attribution programs.",
         "bounded-exhaustive enumeration of instruction sequences against a reference position machine (no sampling)",
         "DESIGN.md 3/C11"),
     chk("C12", "model_checking",
@@ -117,13 +124,16 @@ CHECKS = [
         "successors by one-instruction error blocks and drop unreachable blocks; E1 runs whose main-level block walk starts with "
         "the path must be admitted by the function's contexts (C06-C09 clauses); each function's snapshot (graph + all contexts "
         "incl. the 62 sub-contexts per block) must not depend on which other functions were built or in which order; the "
-        "contract's own graph snapshot must be unchanged afterwards.",
-        "Trusted: reference AVM for the context clause. Dispatch paths up to 4 blocks; up to 3 functions per order.",
+        "contract's own graph snapshot must be unchanged afterwards. 'Exactly that path's executions' is decided differentially: the function's contexts "
+        "must equal those computed for the contract rewritten so that every departure from the path leads to `err` (block by block, incl. "
+        "sub-contexts). The same functions are also built through a group configuration listing all of them (both listing orders) and must "
+        "equal the ones built alone. Programs include hand-written dispatchers whose departures share an off-path target and loops that really iterate.",
+        "Trusted: reference AVM for the context clause. Dispatch paths up to 4 blocks; up to 3 functions per order. Runs that come back to a path block and leave the path there are cut off by the prescribed error blocks and are not demanded.",
         "bounded-exhaustive enumeration of (program, dispatch path, build order) with explicit-state exploration of the concrete AVM filtered by the path automaton; differential snapshots across all build orders",
         "DESIGN.md 3/C12"),
     chk("C13", "model_checking",
         "Configurations of 1-3 transactions over a pool of logic-sig and application contracts (own-field checks, Gtxn[i] checks, "
-        "Gtxn[GroupIndex +/- k] checks, index-guarded self checks, partial checks) x transaction types x absolute indices x "
+        "Gtxn[GroupIndex +/- k] checks, index-guarded self checks, partial checks, a bound on the member's own fee that the tool cannot evaluate) x transaction types x absolute indices x "
         "relative offsets in both directions, written as YAML and loaded through read_config_from_file / init_tealer_from_config: "
         "for each configuration every placement and every member valuation approved by all configured contracts is explored "
         "(product of E1 explorations sharing the group valuation); an eligible transaction that can carry a dangerous value in "
@@ -136,7 +146,8 @@ CHECKS = [
         "On the real code, with every history case run in a child forked from a pristine worker: all sequences of up to 3 (thorough: 4) "
         "contracts from a pool built to collide on shared state (universal-set lists, lru caches, class-level key lists, shared "
         "subroutine blocks) analysed in one process without any cache clearing by the harness; all permutations of every 3-subset of "
-        "detectors containing group-size-check, all ordered pairs, every detector twice; all permutations (<= 5 elements) / rotations "
+        "detectors containing group-size-check, all ordered pairs, every detector twice - by direct detect() calls and through "
+        "Tealer.register_detector/run_detectors (the command line's route); all permutations (<= 5 elements) / rotations "
         "and reversals of the initial forward and backward worklists and of called_subroutines (installed by wrapping, no source change); "
         "PYTHONHASHSEED 0-3 and VERIF_SEED in fresh interpreters. Oracle: graph, all contexts (incl. sub-contexts), parse output, "
         "ordered paths and JSON bytes of every detector equal those of the contract analysed alone in a fresh interpreter; contexts "
@@ -145,8 +156,8 @@ CHECKS = [
         "exhaustive enumeration of operation histories, detector orders and worklist/iteration-order schedules on the real implementation with a differential oracle",
         "DESIGN.md 3/C14"),
     chk("C15", "exploration",
-        "G2 base programs over a mixed alphabet x nine text rewrites (rename labels, comments/blank lines/indentation, hex and octal "
-        "integers, named<->numeric constants next to TypeEnum/OnCompletion, int->pushint, int->entry-block intcblock + intc/intc_k, "
+        "G2 base programs over a mixed alphabet (incl. gtxns reads by constant index and by GroupIndex offset) x ten text rewrites (rename labels, "
+        "comments/blank lines/indentation, hex (lower- and upper-case digits) and octal integers, named<->numeric constants next to TypeEnum/OnCompletion, int->pushint, int->entry-block intcblock + intc/intc_k, "
         "stack-neutral padding at statement boundaries), every ordered pair of them, every placement and order of the subroutine bodies "
         "and its composition with each text rewrite: contexts (per instruction line, incl. selected sub-contexts) and the path sets of "
         "all nine detectors must be equal modulo the rewrite's line map; each rewrite is itself validated as behaviour-preserving by "
@@ -157,10 +168,12 @@ CHECKS = [
     chk("C16", "exploration",
         "Every opcode of the independent v1-v8 table x every field of its group x immediate spellings (uint64 in decimal/hex/octal up to "
         "2^64-1, named constants, 19 byte-string spellings: hex, base64/base32 in four syntaxes, quoted strings with spaces, //, escapes; "
-        "labels named like opcodes; lists) x 9 whitespace/comment layouts: parse_line must yield a supported instruction whose printed "
+        "labels named like opcodes; lists) x 12 whitespace/comment layouts (incl. comments that end in a colon or contain code): parse_line must yield a supported instruction whose printed "
         "form, read by an independent tokenizer/decoder, denotes the same opcode and immediates (integers by value, byte strings by "
         "decoded value), parses back to the same class and text, and does not depend on layout; comments and the source line are kept; "
-        "unknown opcodes (incl. known opcodes with extra characters) stay unsupported verbatim; parse_teal records 1-based line numbers.",
+        "unknown opcodes (incl. known opcodes with extra characters) stay unsupported verbatim; parse_teal records 1-based line numbers. Every ordered "
+        "pair of base lines is parsed back to back in one process (a parse must not depend on earlier parses; one text valid in both base32 and "
+        "base64), and every base line is parsed inside a program through parse_teal (all passes) and must still denote itself.",
         "Trusted: immediate grammar of mc/spec.py, tokenizer mc/asm.py, byte-string decoders in mc/checks/c16.py. `method` round trip only.",
         "exhaustive enumeration of a finite representative line grammar against an independent tokenizer/decoder and a round-trip relation",
         "DESIGN.md 3/C16"),
@@ -181,7 +194,8 @@ CHECKS = [
         "graph of the reference (intra edges, callsub -> entry, retsub -> return point, no callsub -> return-point edge), one call box "
         "per call site, RED nodes = exactly the path's blocks, GroupIndex/GroupSize annotations decode to the computed sets, count = "
         "listed paths, success <=> no error, and filter_paths removes exactly the paths whose short notation re.search-matches, for "
-        "patterns derived from every reported path; the number-list abbreviation of the transaction-context printer is decoded back on all 2^17 subsets of 0..16.",
+        "patterns derived from every reported path; operation sequences on one result object (to_json / filter / to_json / second filter, up to 4 steps) "
+        "must render exactly the paths left at that moment; the number-list abbreviation of the transaction-context printer is decoded back on all 2^17 subsets of 0..16.",
         "Trusted: reference graph and the readers in mc/checks/c18.py. The call-graph export is covered by C05.",
         "output conformance over an exhaustively enumerated program space: every exported artefact parsed back and compared with the reference model",
         "DESIGN.md 3/C18"),
